@@ -25,6 +25,15 @@ def urls(st, skel, n, flag):
     run_prop(st, "hostname_of_url", S.hostname_of_url, u)
 
 
+NESTED = [("http://blog.co.uk.", "blogspot.com/p"), ("https://a.co.jp.github.io/", ""), ("http://www.x", ".com.au.uk.com/")]
+
+
+def nested(st, i, n):
+    pre, post = NESTED[i]
+    u = cat(pre, sym_str(st, "s", n), post)
+    run_prop(st, "fingerprinted_stems_without_suffix", S.fingerprinted_stems_without_suffix, u)
+
+
 def hosts(st, i, n, flag):
     name, pre, post = HOSTS[i]
     h = cat(pre, sym_str(st, "s", n), post)
@@ -49,6 +58,9 @@ def items(tier):
                 if n >= 2:
                     it["defer_depth"] = 8
                 out.append(it)
+    for i in range(len(NESTED)):
+        for n in range(0, (1 if quick else 3) + 1):
+            out.append({"fn": "nested", "params": {"i": i, "n": n}, "name": "nested suffix %d n=%d" % (i, n), "weight": 8 ** n})
     for i in range(len(HOSTS)):
         for n in range(0, (2 if quick else 4) + 1):
             it = {"fn": "hosts", "params": {"i": i, "n": n, "flag": bool(n % 2)}, "name": "host %s n=%d" % (HOSTS[i][0], n), "weight": 8 ** n}
